@@ -369,6 +369,22 @@ func init() {
 				}
 				cases = append(cases, &BCase{ID: fmt.Sprintf("K/getter-of-decorated/%d", ki), Cfg: cfg, Sessions: []BSession{{Ops: ops}}})
 			}
+			// (L) priorities beyond 32 bits (both signs), pairwise distinct, against the name order; ties at the extremes
+			{
+				big := []int{1 << 31, 1<<31 + 1, 1 << 40, math.MaxInt64 - 1, math.MaxInt64, -(1 << 31) - 1, -(1 << 31) - 2, -(1 << 40), math.MinInt64 + 1, math.MinInt64, math.MaxInt32, math.MinInt32, 0}
+				for v := 0; v < 2; v++ {
+					cfg := &Cfg{Meta: stdMeta()}
+					for i, p := range big {
+						n := fmt.Sprintf("m%02d", i)
+						if v == 1 {
+							n = fmt.Sprintf("m%02d", len(big)-i)
+						}
+						cfg.Services = append(cfg.Services, Service{Name: n, Constructor: P("pk.New"), Args: []any{n}, Tags: []Tag{{Name: "t", Priority: P(p)}, {Name: "u", Priority: P(-p / 3)}}})
+					}
+					cfg.Services = append(cfg.Services, Service{Name: "consumer", Constructor: P("pk2.New"), Args: []any{"!tagged t", "!tagged u"}})
+					cases = append(cases, &BCase{ID: fmt.Sprintf("L/wide-priorities=%d", v), Cfg: cfg, Sessions: []BSession{{Ops: []ProbeOp{op("get", "consumer"), opTag("tagged", "t"), opTag("tagged", "u")}}}})
+				}
+			}
 			// (D) scopes of carriers
 			scopes := []*string{nil, P("shared"), P("non_shared"), P("contextual")}
 			for a := 0; a < 4; a++ {
